@@ -49,3 +49,15 @@ theories/Properties/C01.vos theories/Properties/C01.vok theories/Properties/C01.
 theories/Check/C01.vo theories/Check/C01.glob theories/Check/C01.v.beautified theories/Check/C01.required_vo: theories/Check/C01.v theories/Base/Str.vo theories/Base/KV.vo theories/Model/Doc.vo theories/Model/Codec.vo theories/Check/Common.vo
 theories/Check/C01.vio: theories/Check/C01.v theories/Base/Str.vio theories/Base/KV.vio theories/Model/Doc.vio theories/Model/Codec.vio theories/Check/Common.vio
 theories/Check/C01.vos theories/Check/C01.vok theories/Check/C01.required_vos: theories/Check/C01.v theories/Base/Str.vos theories/Base/KV.vos theories/Model/Doc.vos theories/Model/Codec.vos theories/Check/Common.vos
+theories/Model/Builder.vo theories/Model/Builder.glob theories/Model/Builder.v.beautified theories/Model/Builder.required_vo: theories/Model/Builder.v theories/Base/Str.vo theories/Base/KV.vo theories/Model/Doc.vo theories/Model/Dom.vo
+theories/Model/Builder.vio: theories/Model/Builder.v theories/Base/Str.vio theories/Base/KV.vio theories/Model/Doc.vio theories/Model/Dom.vio
+theories/Model/Builder.vos theories/Model/Builder.vok theories/Model/Builder.required_vos: theories/Model/Builder.v theories/Base/Str.vos theories/Base/KV.vos theories/Model/Doc.vos theories/Model/Dom.vos
+theories/Proofs/BuilderProofs.vo theories/Proofs/BuilderProofs.glob theories/Proofs/BuilderProofs.v.beautified theories/Proofs/BuilderProofs.required_vo: theories/Proofs/BuilderProofs.v theories/Base/Str.vo theories/Base/KV.vo theories/Model/Doc.vo theories/Model/Dom.vo theories/Model/Builder.vo
+theories/Proofs/BuilderProofs.vio: theories/Proofs/BuilderProofs.v theories/Base/Str.vio theories/Base/KV.vio theories/Model/Doc.vio theories/Model/Dom.vio theories/Model/Builder.vio
+theories/Proofs/BuilderProofs.vos theories/Proofs/BuilderProofs.vok theories/Proofs/BuilderProofs.required_vos: theories/Proofs/BuilderProofs.v theories/Base/Str.vos theories/Base/KV.vos theories/Model/Doc.vos theories/Model/Dom.vos theories/Model/Builder.vos
+theories/Check/C03.vo theories/Check/C03.glob theories/Check/C03.v.beautified theories/Check/C03.required_vo: theories/Check/C03.v theories/Base/Str.vo theories/Base/KV.vo theories/Model/Doc.vo theories/Model/Dom.vo theories/Model/Builder.vo theories/Check/Common.vo
+theories/Check/C03.vio: theories/Check/C03.v theories/Base/Str.vio theories/Base/KV.vio theories/Model/Doc.vio theories/Model/Dom.vio theories/Model/Builder.vio theories/Check/Common.vio
+theories/Check/C03.vos theories/Check/C03.vok theories/Check/C03.required_vos: theories/Check/C03.v theories/Base/Str.vos theories/Base/KV.vos theories/Model/Doc.vos theories/Model/Dom.vos theories/Model/Builder.vos theories/Check/Common.vos
+theories/Properties/C03.vo theories/Properties/C03.glob theories/Properties/C03.v.beautified theories/Properties/C03.required_vo: theories/Properties/C03.v theories/Base/Str.vo theories/Base/KV.vo theories/Model/Doc.vo theories/Model/Dom.vo theories/Model/Builder.vo theories/Proofs/BuilderProofs.vo
+theories/Properties/C03.vio: theories/Properties/C03.v theories/Base/Str.vio theories/Base/KV.vio theories/Model/Doc.vio theories/Model/Dom.vio theories/Model/Builder.vio theories/Proofs/BuilderProofs.vio
+theories/Properties/C03.vos theories/Properties/C03.vok theories/Properties/C03.required_vos: theories/Properties/C03.v theories/Base/Str.vos theories/Base/KV.vos theories/Model/Doc.vos theories/Model/Dom.vos theories/Model/Builder.vos theories/Proofs/BuilderProofs.vos
